@@ -1,4 +1,4 @@
-(* C11 model driver.  case line:  <kind> <F|S> <dist> <logStart> <S|M> | ops ... | <cap> <wf0> <nothrow> ann ann ...
+(* C11 model driver.  case line:  <kind> <F|S> <dist> <logStart> <S|M> | ops ... | <cap> <wf0> <nothrow> <wfodd> ann ann ...
    (the third part is the failure schedule observed on the real run, see harness.cpp); output = the same
    per-op tokens as the harness:  res/count/capacity/ngens/shape/find/trav *)
 open Zutil
@@ -24,11 +24,11 @@ let () = iter_lines (fun line ->
     | kind :: keycat :: dist :: ls :: sm :: "|" :: rest ->
       let (ops, ann) = split_bar [] rest in
       (match ann with
-       | cap :: wf0 :: nothrow :: anns ->
+       | cap :: wf0 :: nothrow :: wfodd :: anns ->
          let openk = kind.[0] = 'O' in
          let cfg = { c_probe = z_of_int (if openk then 1 else 0); c_policy = z_of_int (if openk then 1 else 0);
                      c_cap = z_of_string cap; c_wf0 = (wf0 = "1"); c_logStart = z_of_string ls;
-                     c_dist = z_of_string dist; c_nothrow = (nothrow = "1") } in
+                     c_dist = z_of_string dist; c_nothrow = (nothrow = "1"); c_wfodd = (wfodd = "1") } in
          let st = ref (Some cfg_init) in
          let known = ref [] in
          let buf = Buffer.create 1024 in
@@ -50,6 +50,7 @@ let () = iter_lines (fun line ->
                     | _ -> failwith "bad annotation")
                  | 'r' -> ORemove key
                  | 'q' -> OFind key
+                 | 'x' -> OClear (a = "1")
                  | 't' -> OTraverse
                  | _ -> OCount in
                (match cfg_step cfg s o with
@@ -59,7 +60,7 @@ let () = iter_lines (fun line ->
                   let res = match r with
                     | RInserted -> "I" | RAlready -> "A" | RFull -> "U" | RBadAlloc -> "B" | RExn -> "E" | RCheck -> "K"
                     | RFound b -> if b then "F1" else "F0" | RRemoved b -> if b then "R1" else "R0"
-                    | RList _ -> "T" | RNum _ -> "C" | RUnit -> "V" in
+                    | RList _ -> "T" | RNum _ -> "C" | RUnit -> (if k = 'x' then "X" else "V") in
                   let sh = ref 0 in
                   let txt = Buffer.create 64 in
                   Stdlib.List.iter (fun (lg, bs) ->
@@ -72,7 +73,7 @@ let () = iter_lines (fun line ->
                                   if verbose then Buffer.add_string txt (string_of_z x ^ ",")) its;
                       if verbose then Buffer.add_string txt (if wf then "]" else ")")) bs) (cfg_shape s');
                   let fd = Stdlib.List.fold_left (fun acc a -> dg acc (if cfg_find cfg s' (z_of_string a) then 1 else 0)) 0 !known in
-                  let td = Stdlib.List.fold_left (fun acc x -> dg acc (int_of_z x)) 0 (traverse s') in
+                  let td = Stdlib.List.fold_left (fun acc x -> dg acc (int_of_z x)) 0 (cfg_traverse cfg s') in
                   Printf.sprintf "%s/%s/%s/%d/%d/%d/%d%s" res (string_of_z (count s')) (string_of_z (capacity s'))
                     (Stdlib.List.length (gens s')) !sh fd td
                     (if verbose then "{" ^ Buffer.contents txt ^ " }" else "")) in
